@@ -325,4 +325,5 @@ def simple_font(nglyphs=30, first_cp=0x61, upem=1000, family="Verif", extra_cmap
         cmap[first_cp + i - 2] = i
     if extra_cmap:
         cmap.update(extra_cmap)
-    return build_font(glyphs, cmap, upem=upem, names=default_names(family), **kw), glyphs, cmap
+    names = kw.pop("names", None) or default_names(family)
+    return build_font(glyphs, cmap, upem=upem, names=names, **kw), glyphs, cmap
